@@ -138,7 +138,8 @@ class _FunctionCall(object):
                 # the argument class of a bare method can have parents
                 _type_info = in_message.get_flat_type_info(in_message)
 
-            ctx.in_object = [None] * len(_type_info)
+            # an omitted argument gets its declared default, like on the wire
+            ctx.in_object = [v.Attributes.default for v in _type_info.values()]
             for i in range(len(args)):
                 ctx.in_object[i] = args[i]
 
